@@ -6,8 +6,10 @@ legs:   M  exhaustive TLC check: every clause of the property in every cell conf
            user-code behaviour x other middleware (+ the wrong design "wildcard together with credentials" must FAIL)
         A  every cell TLC reaches is replayed through a real falcon.App and falcon.asgi.App (cors_enable=True or an
            explicit CORSMiddleware(..)), the final Access-Control-* / Allow headers compared with the TLC row
+           + spec/MC_CorsObj.tla: Configure in every container form, CallerMutates between requests, request histories on
+           one middleware (exhaustive small, simulated larger); every simulated history replayed on both stacks (leg_obj)
         B  random CORS configurations (more origins, every accepted argument form) on random apps (C02's generator)
-           with random requests; traces judged by TLC (CorsTrace)
+           with random requests and caller mutations of the passed sets / lists in between; traces judged by TLC (CorsTrace)
 """
 import os
 
@@ -31,6 +33,21 @@ META = {
                   'configurations.  Every spelling of an empty collection (list, tuple, set, frozenset, empty string, None where '
                   'accepted) is rotated by the harness for allow_origins / allow_credentials / expose_headers.  Wrong designs '
                   'rejected by TLC: wildcard with credentials, empty-means-all, raised-HTTPStatus-counts-as-success.  '
+                  'Configuration as state (spec/Cors.tla Configure / ConfigureRejected / CallerMutates, instance '
+                  'spec/MC_CorsObj.tla): each of allow_origins / allow_credentials / expose_headers is handed over as \'*\', None, one '
+                  'string, set, frozenset, list, tuple, generator or dict key view (every form of one option against 2 (quick) / 3 '
+                  '(thorough) forms of the other two; \'*\' inside an iterable is refused at construction, D-clause when accepted); '
+                  'between requests the caller adds / removes an origin, adds \'*\', appends / removes an exposed header on the very '
+                  'object it passed (mutable forms); requests include origins added to / removed from that object after '
+                  'construction.  Several requests on one middleware (Exchange, NextRequest): 4 origins x plain / preflight / '
+                  'unrouted; exhaustive with 2 requests + 1 mutation and 8 requests (quick) or 3 requests + 2 mutations and 16 '
+                  'requests (thorough), simulated with 4 requests + up to 3 mutations; clauses GrantFunctionOfConfigAndRequest '
+                  '(final headers = Process(configuration at construction, this request)) and all older clauses on every exchange; '
+                  'wrong designs AliasCallerSet and MemoDecision rejected by TLC.  Simulated histories (a seeded sample of ~1100, '
+                  'equal share per constructor call, in quick; all ~13000 in thorough) are replayed on both stacks; random traces '
+                  'carry "mutate" events (sets / lists the harness passed) that the judge applies to the caller object only.  Not '
+                  'covered: mutation of the middleware\'s own attributes, concurrent mutation during a request, user-code behaviours '
+                  'other than "plain" inside the object histories.  '
                   'Interpretation: a grant is an Access-Control-Allow-Origin header in the final response; the credentials '
                   'header a denied preflight leaves behind (without origin header) grants nothing and is a D-clause; requests '
                   'never carry an empty Origin value.  Trusted: TLC, engine/drivers.py, splitting header values on commas.',
@@ -132,7 +149,8 @@ EMPTY_EH = (None, [], (), '')
 def cors_args(cfg, rng=None, variant=0):
     """spec-level configuration -> CORSMiddleware keyword arguments (forms vary with rng, or with `variant`)"""
     def pick(forms, k):
-        return rng.choice(forms) if rng is not None else forms[(variant + k) % len(forms)]
+        e = rng.choice(forms) if rng is not None else forms[(variant + k) % len(forms)]
+        return type(e)(e) if isinstance(e, (list, set)) else e      # a fresh object: the caller may mutate it later
 
     def form(x, none_ok):
         if x['star']:
@@ -165,7 +183,7 @@ def cors_args(cfg, rng=None, variant=0):
     return kw
 
 
-def build(asgi, sbs, wiring, cfg, other, dirs, rng=None, variant=0):
+def build(asgi, sbs, wiring, cfg, other, dirs, rng=None, variant=0, cors_kw=None):
     """-> (Built, guard_fired).  cors_enable=True or explicit middleware; the other middleware listed
     before / after the CORS one through the public constructor / add_middleware"""
     from falcon import CORSMiddleware
@@ -178,9 +196,11 @@ def build(asgi, sbs, wiring, cfg, other, dirs, rng=None, variant=0):
             if oth is not None:
                 b.app.add_middleware(oth)
     elif wiring == 'explicit':
-        cm = CORSMiddleware(**cors_args(cfg, rng, variant))
+        kw = cors_kw if cors_kw is not None else cors_args(cfg, rng, variant)
+        cm = CORSMiddleware(**kw)
         mws = [cm] if oth is None else ([oth, cm] if other['pos'] == 'before' else [cm, oth])
         b = c02.Built(asgi, sbs, dirs, act, middleware=mws)
+        b.cors_kw = kw          # the caller keeps the objects it passed (and may mutate them later)
     else:
         b = c02.Built(asgi, sbs, dirs, act)
     register_handler(b.app, asgi)
@@ -269,9 +289,13 @@ def run(ctx):
                        'the exchange outcome (succeeded?, Allow advertised?) is derived from Dispatch!Outcome (C02)']
     dirs = c02.StaticDirs()
     try:
-        table = leg_m(ctx) if 'M' in LEGS else None
+        table, sim = leg_m(ctx) if 'M' in LEGS else (None, None)
         if 'A' in LEGS:
             leg_a(ctx, dirs, table)
+            if sim is None:
+                sim = ctx.tlc('MC_CorsObj', 'MC_CorsObjSim.cfg', workers=4, simulate={'num': ctx.pick(150, 400)}, depth=10,
+                              seed=ctx.seed + 1, timeout=ctx.pick(200, 600), count=False).json
+            leg_obj(ctx, dirs, sim)
         if 'B' in LEGS:
             leg_b(ctx, dirs)
     finally:
@@ -279,22 +303,46 @@ def run(ctx):
 
 
 def leg_m(ctx):
-    # the same exhaustive run checks the clauses and prints the decision table (no history variable involved)
-    r = ctx.tlc('MC_Cors', ctx.pick('MC_Cors.cfg', 'MC_CorsFull.cfg'), coverage=True, workers=8, timeout=ctx.pick(280, 2400))
-    ctx.require_coverage(r, ['MakeEnable', 'MakeExplicit', 'AddCorsAgainRejected', 'XAddOther', 'XExchangeOne'])
-    wrong = (('MC_CorsWrong.cfg', 'StarWithCreds=TRUE', ('NoWildcardWithCredentials',)),
+    """-> (decision table, simulated object histories).  All TLC runs of the check are started together (JVM start-up
+    overlaps); a failure of any of them is a machinery failure."""
+    from concurrent.futures import ThreadPoolExecutor
+    wrong = (('MC_Cors', 'MC_CorsWrong.cfg', 'StarWithCreds=TRUE', ('NoWildcardWithCredentials',)),
              # fails only if the instance really contains an empty allow_origins collection and an Origin
-             ('MC_CorsWrongEmpty.cfg', 'EmptyMeansAll=TRUE', ('OnlyAllowedOrigins', 'GrantIsEchoOrStar',
-                                                              'CredentialsOnlyIfConfigured')),
+             ('MC_Cors', 'MC_CorsWrongEmpty.cfg', 'EmptyMeansAll=TRUE', ('OnlyAllowedOrigins', 'GrantIsEchoOrStar',
+                                                                         'CredentialsOnlyIfConfigured')),
              # fails only if the instance really contains a preflight answered by a raised HTTPStatus with Allow
-             ('MC_CorsWrongStatus.cfg', 'StatusSucceeds=TRUE', ('NoApprovalAfterRaise',)))
-    for cfg, switch, want in wrong:
-        rw = ctx.tlc('MC_Cors', cfg, workers=4, timeout=300, must_hold=False, count=False)
+             ('MC_Cors', 'MC_CorsWrongStatus.cfg', 'StatusSucceeds=TRUE', ('NoApprovalAfterRaise',)),
+             # fails only if a caller really mutates a container it passed and a later request meets the difference
+             ('MC_CorsObj', 'MC_CorsObjWrongAlias.cfg', 'AliasCallerSet=TRUE', OBJ_CLAUSES),
+             # fails only if one middleware really serves a second request whose origin is decided differently
+             ('MC_CorsObj', 'MC_CorsObjWrongMemo.cfg', 'MemoDecision=TRUE', OBJ_CLAUSES))
+    with ThreadPoolExecutor(max_workers=5) as ex:
+        # the same exhaustive run checks the clauses and prints the decision table (no history variable involved)
+        f_main = ex.submit(ctx.tlc, 'MC_Cors', ctx.pick('MC_Cors.cfg', 'MC_CorsFull.cfg'), coverage=True, workers=6,
+                           timeout=ctx.pick(280, 2400))
+        # configuration as state + request histories: exhaustive (small), then simulated with the history recorded
+        f_obj = ex.submit(ctx.tlc, 'MC_CorsObj', ctx.pick('MC_CorsObj.cfg', 'MC_CorsObjFull.cfg'), coverage=True, workers=4,
+                          timeout=ctx.pick(280, 1500))
+        f_sim = ex.submit(ctx.tlc, 'MC_CorsObj', 'MC_CorsObjSim.cfg', workers=4, simulate={'num': ctx.pick(150, 400)}, depth=10,
+                          seed=ctx.seed + 1, timeout=ctx.pick(200, 600), count=False)
+        f_wrong = [ex.submit(ctx.tlc, mod, cfg, workers=2, timeout=300, must_hold=False, count=False)
+                   for mod, cfg, _, _ in wrong]
+        r, ro, rs = f_main.result(), f_obj.result(), f_sim.result()
+        rws = [f.result() for f in f_wrong]
+    ctx.require_coverage(r, ['MakeEnable', 'MakeExplicit', 'AddCorsAgainRejected', 'XAddOther', 'XExchangeOne'])
+    ctx.require_coverage(ro, ['OConfigure', 'OConfigureRejected', 'OCallerMutates', 'OExchange', 'ONextRequest'])
+    for (mod, cfg, switch, want), rw in zip(wrong, rws):
         if rw.violated not in want:
             raise MachineryError('vacuity: %s should violate %s, TLC reported %r' % (switch, want, rw.violated))
-    ctx.extra['wrong_design_instances_rejected'] = ['%s -> %s' % (sw, '/'.join(w)) for _, sw, w in wrong]
-    ctx.progress('leg M done: %d states' % r.distinct)
-    return r.json
+    ctx.extra['wrong_design_instances_rejected'] = ['%s -> %s' % (sw, rw.violated) for (_, _, sw, _), rw in zip(wrong, rws)]
+    ctx.extra['object_instance_states'] = ro.distinct
+    ctx.progress('leg M done: %d states (decision table) + %d states (caller objects x request histories)'
+                 % (r.distinct, ro.distinct))
+    return r.json, rs.json
+
+
+OBJ_CLAUSES = ('OnlyAllowedOrigins', 'GrantIsEchoOrStar', 'CredentialsOnlyIfConfigured', 'GrantFunctionOfConfigAndRequest',
+               'NoWildcardWithCredentials')
 
 
 def leg_a(ctx, dirs, table=None):
@@ -372,6 +420,190 @@ def leg_a(ctx, dirs, table=None):
     ctx.progress('leg A: %d configurations, %d cells replayed (both stacks)' % (len(groups), cells))
 
 
+# ---------------------------------------------------------------------------------------------
+# configuration as an object: the container forms of spec/Cors.tla (ArgForms) and what a caller can do to them later
+OPT_KW = {'ao': 'allow_origins', 'ac': 'allow_credentials', 'eh': 'expose_headers'}
+UNORDERED = ('set', 'frozenset')
+
+
+def make_arg(form, items):
+    """spec-level argument [form, items] -> (the Python object passed to CORSMiddleware, handle the caller mutates)"""
+    items = list(items)
+    if form == 'star':
+        return '*', None
+    if form == 'none':
+        return None, None
+    if form == 'str':
+        return ', '.join(items), None
+    if form == 'set':
+        o = set(items)
+        return o, o
+    if form == 'list':
+        o = list(items)
+        return o, o
+    if form == 'keys':
+        d = dict.fromkeys(items)
+        return d.keys(), d          # a live view: changes of the dict show through it
+    if form == 'frozenset':
+        return frozenset(items), None
+    if form == 'tuple':
+        return tuple(items), None
+    if form == 'gen':
+        return (x for x in items), None
+    raise MachineryError('unknown container form %r' % form)
+
+
+def make_kw(args):
+    kw, handles = {}, {}
+    for opt, name in OPT_KW.items():
+        kw[name], handles[opt] = make_arg(args[opt]['form'], args[opt]['items'])
+    return kw, handles
+
+
+def mutate(handle, how, item):
+    """the caller mutates the object it had passed: add / remove one item"""
+    if isinstance(handle, set):
+        handle.add(item) if how == 'add' else handle.discard(item)
+    elif isinstance(handle, list):
+        if how == 'add':
+            handle.append(item)
+        else:
+            while item in handle:
+                handle.remove(item)
+    elif isinstance(handle, dict):
+        if how == 'add':
+            handle[item] = None
+        else:
+            handle.pop(item, None)
+    else:
+        raise MachineryError('the harness cannot mutate a %s' % type(handle).__name__)
+
+
+def form_of(v):
+    if v is None:
+        return 'none'
+    if isinstance(v, str):
+        return 'star' if v == '*' else 'str'
+    return type(v).__name__          # set, frozenset, list, tuple
+
+
+def caller_of(cfg, kw):
+    """the trace's description of the objects the harness passed (forms as built, contents = the configuration)"""
+    ao = kw.get('allow_origins', '*')
+    ac = kw.get('allow_credentials')
+    eh = kw.get('expose_headers')
+    return {'ao': {'form': form_of(ao), 'star': cfg['ao']['star'], 'items': list(cfg['ao']['set'])},
+            'ac': {'form': form_of(ac), 'star': cfg['ac']['star'], 'items': list(cfg['ac']['set'])},
+            'eh': {'form': form_of(eh), 'items': list(cfg['eh'])}}
+
+
+def leg_obj(ctx, dirs, sim):
+    """leg A for configuration-as-state and request histories: every history TLC simulated (Configure in every container
+    form, CallerMutates between requests, MaxServed requests on one middleware) is replayed on both stacks"""
+    from falcon import CORSMiddleware
+    apps = [b for b in sim if 'app' in b]
+    if not apps:
+        raise MachineryError('MC_CorsObj exported no app')
+    app = apps[0]['app']
+    calls = app_calls(app)
+    hists = {digest(b): b for b in sim if 'args' in b}
+    if ctx.quick:       # a seeded sample, the same number of histories for every simulated constructor call
+        by_args = {}
+        for k in sorted(hists):
+            by_args.setdefault(digest(hists[k]['args']), []).append(k)
+        per = max(1, 1600 // len(by_args))
+        hists = {k: hists[k] for ks in by_args.values() for k in ctx.rng.sample(ks, min(per, len(ks)))}
+    none = {'kind': 'none', 'pos': 'before'}
+    n_req = n_rej = n_added = n_removed = n_star = 0
+    forms = {opt: set() for opt in OPT_KW}
+    for key in sorted(hists):
+        h = hists[key]
+        args = h['args']
+        for opt in OPT_KW:
+            forms[opt].add(args[opt]['form'])
+        for asgi in (False, True):
+            kw, handles = make_kw(args)
+            case = {'obj': True, 'asgi': asgi, 'args': args, 'rejected': h['rejected'], 'cfg': h['cfg'], 'steps': h['steps'],
+                    'sbs': app['sbs'], 'app': app}
+            if h['rejected']:
+                n_rej += 1
+                ctx.case(case, nontrivial=False, key=(key, asgi))
+                try:
+                    CORSMiddleware(**kw)
+                except ValueError:
+                    continue
+                except Exception as ex:        # noqa
+                    ctx.violation('P:configure', case, 'CORSMiddleware(%r) raised %r' % (args, ex))
+                    continue
+                ctx.detail('D:rejected', case, "CORSMiddleware accepted '*' inside an iterable: %r" % (args,))
+                continue
+            try:
+                b = build(asgi, app['sbs'], 'explicit', h['cfg'], none, dirs, cors_kw=kw)
+            except Exception as ex:            # noqa
+                ctx.case(case, nontrivial=True, key=(key, asgi))
+                ctx.violation('P:configure', case, 'a well-formed configuration was refused: CORSMiddleware(%r) raised %r'
+                              % (args, ex))
+                continue
+            for c in calls:
+                ok, exn = b.call(c)
+                if not ok:
+                    raise MachineryError('fixed app could not be assembled: %r %s' % (c, exn))
+            now = {opt: set(args[opt]['items']) for opt in ('ao', 'ac')}
+            for i, st in enumerate(h['steps']):
+                if st['op'] == 'mutate':
+                    mutate(handles[st['opt']], st['how'], st['item'])
+                    if st['opt'] in now:
+                        now[st['opt']].add(st['item']) if st['how'] == 'add' else now[st['opt']].discard(st['item'])
+                    continue
+                rq = st['rq']
+                then = set(args['ao']['items'])
+                if rq['origin'] != '-' and not args['ao']['star']:
+                    n_added += rq['origin'] in now['ao'] and rq['origin'] not in then
+                    n_removed += rq['origin'] in then and rq['origin'] not in now['ao']
+                    n_star += '*' in now['ao']
+                o = c02.run_requests(b, [(rq['m'], c02.text(rq['p']))], [req_headers(rq, st['beh'])], project)[0]
+                n_req += 1
+                c1 = dict(case, at=i, expected=norm_out(st['out']), denied=st['denied'])
+                ctx.case(c1, nontrivial=rq['origin'] != '-', key=(key, asgi, i))
+                if o['problem']:
+                    ctx.violation('P:exception', c1, o['problem'])
+                    break
+                want, got = c1['expected'], o['extra']
+                if args['eh']['form'] in UNORDERED:      # iteration order of a set is not the caller's business
+                    want, got = dict(want, aceh=sorted(want['aceh'])), dict(got, aceh=sorted(got['aceh']))
+                d = compare(want, got, st['denied'])
+                if d:
+                    c1['observed'] = o['extra']
+                    what = 'request %d of a history on one %s app, CORSMiddleware(%s), steps so far %s: %s' % (
+                        sum(1 for s in h['steps'][:i + 1] if s['op'] == 'req'), 'ASGI' if asgi else 'WSGI',
+                        ', '.join('%s=%s%r' % (OPT_KW[k], args[k]['form'] + ':' if args[k]['form'] not in ('star', 'none') else '',
+                                               '*' if args[k].get('star') else args[k]['items']) for k in OPT_KW),
+                        [(s['opt'], s['how'], s['item']) if s['op'] == 'mutate' else
+                         (s['rq']['m'], c02.text(s['rq']['p']), s['rq']['origin'], s['rq']['acrm']) for s in h['steps'][:i + 1]],
+                        d[1])
+                    if d[0].startswith('D:'):
+                        ctx.detail(d[0], c1, what)
+                    else:
+                        ctx.violation(d[0], c1, what)
+                    break
+    missing = {opt: sorted(OBJ_FORMS[opt] - forms[opt]) for opt in OPT_KW if OBJ_FORMS[opt] - forms[opt]}
+    if missing or not (n_added and n_removed and n_star and n_rej):
+        raise MachineryError('simulated histories lack container forms %r, or requests with an origin added (%d) / removed '
+                             '(%d) after construction, or a later "*" (%d), or refused constructions (%d)'
+                             % (missing, n_added, n_removed, n_star, n_rej))
+    ctx.traces_validated += n_req
+    ctx.extra['object_histories_replayed'] = len(hists)
+    ctx.extra['object_history_requests'] = n_req
+    ctx.extra['requests_with_origin_added_after_construction'] = n_added
+    ctx.extra['requests_with_origin_removed_after_construction'] = n_removed
+    ctx.progress('leg A (objects/histories): %d histories x 2 stacks, %d requests (%d with an origin added, %d removed after '
+                 'construction; %d refused constructions)' % (len(hists), n_req, n_added, n_removed, n_rej))
+
+
+CONTAINERS = {'set', 'frozenset', 'list', 'tuple', 'gen', 'keys'}
+OBJ_FORMS = {'ao': CONTAINERS | {'star', 'str'}, 'ac': CONTAINERS | {'star', 'str', 'none'}, 'eh': CONTAINERS | {'str', 'none'}}
+
+
 def c02_key(row):
     return digest([row['wiring'], row['cfg'], row['other'], row['guard']])
 
@@ -404,7 +636,7 @@ def leg_b(ctx, dirs):
     rng = ctx.rng
     nsc = ctx.pick(250, 3000)
     seen = {}
-    nreq = 0
+    nreq = mutated = 0
     default = {'ao': {'star': True, 'set': []}, 'ac': {'star': False, 'set': []}, 'eh': []}
     for i in range(nsc):
         sc = c02.gen_scenario(rng)
@@ -422,6 +654,15 @@ def leg_b(ctx, dirs):
                 rq = {'origin': origin, 'm': m, 'p': st[2], 'acrm': rng.choice(('-', 'POST', 'DELETE', 'GET')),
                       'acrh': rng.choice(('-', '-', 'X-Q, Y', 'content-type'))}
                 steps.append(('req', rq, rng.choice(BEHS)))
+                # between requests the caller may mutate the containers it passed to the constructor (applied where the
+                # form built for this scenario is a set / list; the policy must stay the one of the construction)
+                if wiring == 'explicit' and rng.random() < 0.15:
+                    opt = rng.choice(('ao', 'ao', 'ac', 'eh'))
+                    if opt == 'eh':
+                        steps.append(('mut', opt, rng.choice(('add', 'remove')), rng.choice(EXPOSE + ['X-New'])))
+                    else:
+                        pool = cfg[opt]['set'] if rng.random() < 0.4 and cfg[opt]['set'] else ORIGINS[:7] + ['*']
+                        steps.append(('mut', opt, rng.choice(('add', 'add', 'remove')), rng.choice(pool)))
             else:
                 steps.append(st)
         seed = rng.random()
@@ -443,8 +684,18 @@ def leg_b(ctx, dirs):
                              problem=o['problem'])
                     evs.append(e)
                 del pend[:]
+            nmut = 0
             for st in steps:
-                if isinstance(st, tuple):
+                if isinstance(st, tuple) and st[0] == 'mut':
+                    obj = getattr(b, 'cors_kw', {}).get(OPT_KW[st[1]])
+                    if isinstance(obj, (set, list)):
+                        flush()
+                        mutate(obj, st[2], st[3])
+                        e = c02.EV('mutate', opt=st[1], how=st[2], item=st[3])
+                        e.update(origin='-', acrm='-', acrh='-', beh='plain', hdr=NO_HDR)
+                        evs.append(e)
+                        nmut += 1
+                elif isinstance(st, tuple):
                     pend.append((st[1], st[2]))
                 else:
                     flush()
@@ -454,7 +705,9 @@ def leg_b(ctx, dirs):
                     e.update(origin='-', acrm='-', acrh='-', beh='plain', hdr=NO_HDR)
                     evs.append(e)
             flush()
-            tr = {'sbs': sc['sbs'], 'wiring': wiring, 'cfg': cfg, 'other': other, 'ev': evs}
+            tr = {'sbs': sc['sbs'], 'wiring': wiring, 'cfg': cfg, 'other': other, 'ev': evs,
+                  'caller': caller_of(cfg, getattr(b, 'cors_kw', {})), 'seed': repr(seed)}
+            mutated += nmut
             for e in evs:
                 if e['op'] == 'req':
                     nreq += 1
@@ -484,6 +737,7 @@ def leg_b(ctx, dirs):
         else:
             ctx.violation(clause, case, what)
     ctx.extra['random_scenarios'] = nsc
+    ctx.extra['caller_mutations_in_random_traces'] = mutated
     ctx.extra['distinct_traces_judged'] = len(items)
 
 
@@ -492,9 +746,14 @@ def replay(ctx, case):
     try:
         if 'trace' in case:
             tr = case['trace']
-            b = build(case['asgi'], tr['sbs'], tr['wiring'], tr['cfg'], tr['other'], dirs)
+            import random as _random
+            b = build(case['asgi'], tr['sbs'], tr['wiring'], tr['cfg'], tr['other'], dirs,
+                      _random.Random(float(tr['seed'])) if 'seed' in tr else None)
             for e in tr['ev']:
-                if e['op'] != 'req':
+                if e['op'] == 'mutate':
+                    mutate(b.cors_kw[OPT_KW[e['opt']]], e['how'], e['item'])
+                    print('caller mutates', e['opt'], e['how'], e['item'])
+                elif e['op'] != 'req':
                     print('assembly', e['op'], b.call(e))
             e = tr['ev'][-1]
             rq = {'origin': e['origin'], 'm': e['m'], 'p': c02.text(e['p']), 'acrm': e['acrm'], 'acrh': e['acrh']}
@@ -505,6 +764,31 @@ def replay(ctx, case):
             print('verdict:', v)
             if v != 'ok' and v.startswith('P:'):
                 ctx.violation(v.split('@')[0], case, 'trace rejected at %s' % v)
+            return
+        if case.get('obj'):
+            kw, handles = make_kw(case['args'])
+            try:
+                b = build(case['asgi'], case['sbs'], 'explicit', case['cfg'], {'kind': 'none', 'pos': 'before'}, dirs, cors_kw=kw)
+            except Exception as ex:        # noqa
+                print('construction raised %r (TLC: rejected=%s)' % (ex, case['rejected']))
+                if not case['rejected'] and not isinstance(ex, ValueError):
+                    ctx.violation('P:configure', case, 'construction raised %r' % (ex,))
+                return
+            for c in app_calls(case['app']):
+                b.call(c)
+            for i, st in enumerate(case['steps'][:case.get('at', -1) + 1]):
+                if st['op'] == 'mutate':
+                    mutate(handles[st['opt']], st['how'], st['item'])
+                    continue
+                rq = st['rq']
+                o = c02.run_requests(b, [(rq['m'], c02.text(rq['p']))], [req_headers(rq, st['beh'])], project)[0]
+                want, got = norm_out(st['out']), o['extra']
+                if case['args']['eh']['form'] in UNORDERED:
+                    want, got = dict(want, aceh=sorted(want['aceh'])), dict(got, aceh=sorted(got['aceh']))
+                print('step', i, 'observed:', got, 'expected:', want)
+                d = compare(want, got, st['denied'])
+                if d and not d[0].startswith('D:'):
+                    ctx.violation(d[0], case, d[1])
             return
         b = build(case['asgi'], case['sbs'], case['wiring'], case['cfg'], case['other'], dirs, variant=case.get('variant', 0))
         for c in app_calls(case['app']):
